@@ -169,6 +169,16 @@ func TestCheck(t *testing.T) {
 		}
 		rig.ReadJSON(c.ReplayPath(), &w)
 		c.MinNontrivial = 0
+		if w.Witness.Log != nil && w.Witness.Log.Events != nil {
+			// the recorded log judged again by today's oracle (racy schedules rarely repeat)
+			still := false
+			fs, _ := checkLog(&w.Witness.Sched, w.Witness.Log)
+			for _, f := range fs {
+				fmt.Printf("RECHECK recorded log: %s: %s\n", f.sig, f.what)
+				still = still || f.sig == w.Sig
+			}
+			fmt.Printf("RECHECK property=C11 sig=%s on the recorded log: still-a-violation=%v\n", w.Sig, still)
+		}
 		reps, hit := 25, 0
 		for i := 0; i < reps; i++ {
 			stop := watchdog(c, &w.Witness.Sched) // a dead-locked replay reports the deadlock and exits
